@@ -108,18 +108,20 @@ theorem t1Run_nil (c1 : Clem.T1.Cfg α) (gs : List (Clem.T1.Graph α)) (text : S
 
 /-- `x` is the T2 model's answer for some oracle entry of this world and configuration, or the empty answer -/
 def T2Good (x : Clem.T2.Out α) : Prop :=
-  x = emptyT2 c ∨ ∃ (o : Oracles α) (qo : QOracle α) (h : Clem.T2.HCfg α) (q : Clem.T2.QCfg α),
-    x = Clem.T2.t2 (t2Cfg w c o qo) c.tiers (withCos w.eps qo.cos) h q (t2K c) c.residualCap (gnodes w)
+  x = emptyT2 c ∨ ∃ (o : Oracles α) (qo : QOracle α) (h : Clem.T2.HCfg α) (q : Clem.T2.QCfg α)
+      (mem : List Clem.Refl.Written),
+    x = Clem.T2.t2 (t2Cfg w c o qo) c.tiers (withCos (epsAt w mem o) qo.cos) h q (t2K c) c.residualCap (gnodes w)
 
 /-- every entry of the orchestrator's cache is such an answer (true of the empty cache, kept by every turn) -/
 def GoodState (s : State α) : Prop := ∀ e ∈ s.orch, T2Good w c e.2
 
-theorem fresh_good (g : Clem.Gel.State α) (q : Str) : T2Good w c ((t2Call w c o g q).getD (emptyT2 c)) := by
+theorem fresh_good (g : Clem.Gel.State α) (q : Str) (mem : List Clem.Refl.Written) :
+    T2Good w c ((t2Call w c o g q mem).getD (emptyT2 c)) := by
   unfold t2Call
   split
   · left; rfl
   · rename_i qo _
-    right; exact ⟨o, qo, hybOf c g, qualOf c qo, rfl⟩
+    right; exact ⟨o, qo, hybOf c g, qualOf c qo, mem, rfl⟩
 
 theorem t2Stage_good (hs : GoodState w c s) :
     T2Good w c (t2Stage w c s t o).out ∧ ∀ e ∈ (t2Stage w c s t o).orch, T2Good w c e.2 := by
@@ -129,13 +131,13 @@ theorem t2Stage_good (hs : GoodState w c s) :
   · split
     · rename_i e he
       exact ⟨hs e (List.mem_of_find?_eq_some he), hs⟩
-    · refine ⟨fresh_good w c o _ _, ?_⟩
+    · refine ⟨fresh_good w c o _ _ _, ?_⟩
       intro e he
       rcases List.mem_append.1 he with h | h
       · exact hs e h
       · rw [List.mem_singleton] at h
-        rw [h]; exact fresh_good w c o _ _
-  · exact ⟨fresh_good w c o _ _, hs⟩
+        rw [h]; exact fresh_good w c o _ _ _
+  · exact ⟨fresh_good w c o _ _ _, hs⟩
 
 theorem t2Of_good (hs : GoodState w c s) : T2Good w c (t2Of w c s t o) := (t2Stage_good w c s t o hs).1
 
